@@ -7,6 +7,6 @@ for p in C06 C07 C08 C09 C10 C11 C12 C13 C14 C15 C16 C17 C18 C20; do
   [ -f seeded/$id/meta.json ] && { echo "DONE    $id"; continue; }
   out=$(tools/seeded.sh $id $p /tmp/mut/$id/_out 2>&1)
   conf=$(echo "$out" | head -1 | cut -c1-160)
-  n=$(echo "$out" | grep -c "violation class")
-  if [ "$n" -gt 0 ]; then echo "CAUGHT  $conf :: $(echo "$out" | grep 'violation class' | head -3 | sed 's/.*violation class //' | tr '\n' ';' | cut -c1-160)"; else echo "MISSED  $conf :: $(echo "$out" | tail -1 | cut -c1-120)"; fi
+  n=$(echo "$out" | grep -c "^  violation class")
+  if [ "$n" -gt 0 ]; then echo "CAUGHT  $conf :: $(echo "$out" | grep "^  violation class" | head -3 | sed 's/.*violation class //' | tr '\n' ';' | cut -c1-160)"; else echo "MISSED  $conf :: $(echo "$out" | tail -1 | cut -c1-120)"; fi
 done
